@@ -21,26 +21,26 @@ pub(crate) struct SystemEventAccessTracker
     data_entity: Entity,
 
     /// Information cached for when the system actually runs.
-    prepared: Vec<(SystemCommand, Entity)>,
+    prepared: Vec<(u64, SystemCommand, Entity)>,
 }
 
 impl SystemEventAccessTracker
 {
     /// Caches metadata for a system event.
-    pub(crate) fn prepare(&mut self, system: SystemCommand, data_entity: Entity)
+    pub(crate) fn prepare(&mut self, ticket: u64, system: SystemCommand, data_entity: Entity)
     {
-        self.prepared.push((system, data_entity));
+        self.prepared.push((ticket, system, data_entity));
     }
 
     /// Sets metadata for the current entity reaction.
-    pub(crate) fn start(&mut self, reactor: SystemCommand)
+    pub(crate) fn start(&mut self, reactor: SystemCommand, ticket: u64)
     {
-        let Some(pos) = self.prepared.iter().position(|(s, _)| *s == reactor) else {
+        let Some(pos) = self.prepared.iter().position(|(t, s, _)| *t == ticket && *s == reactor) else {
             tracing::error!("prepared system event is missing {:?}", reactor);
             debug_assert!(false);
             return;
         };
-        let (_, data_entity) = self.prepared.remove(pos);
+        let (_, _, data_entity) = self.prepared.remove(pos);
 
         debug_assert!(!self.currently_reacting);
         self.currently_reacting = true;
